@@ -152,6 +152,8 @@ pub fn generate(tier: &str, rng: &mut Rng) -> (Vec<String>, bool) {
             push_case(&mut out, "ts_fdiff", &xs, w, None, t, OUTS[rng.below(3)], Some(DS[i % DS.len()]));
         }
     }
+    // the same requests at scales 2^-12 .. 2^-15: variances a few orders of magnitude above EPS
+    crate::cases::add_scaled(&mut out, 9, &[12, 13, 14, 15], &["xs", "ys"]);
     (out, true)
 }
 
